@@ -59,6 +59,15 @@ fn main() {
                 println!("te_guard|{}|{}|{}|{}", a, b, c, te(&TransitionError::guard_failed(St(a), b, c)));
                 println!("de_wrong|{}|{}|{}|{}", a, b, c, de(&DynamicError::wrong_state(a, b, c)));
                 println!("dbg_de_wrong|{}|{}|{}|{:?}", a, b, c, DynamicError::wrong_state(a, b, c));
+                println!("eq_de|{}|{}|{}|{}{}{}{}{}", a, b, c,
+                    (DynamicError::wrong_state(a, b, "op") == DynamicError::wrong_state(a, c, "op")) as u8,
+                    (DynamicError::wrong_state(b, a, "op") == DynamicError::wrong_state(c, a, "op")) as u8,
+                    (DynamicError::wrong_state(a, "x", b) == DynamicError::wrong_state(a, "x", c)) as u8,
+                    (DynamicError::invalid_transition(a, b) == DynamicError::invalid_transition(a, c)) as u8,
+                    (DynamicError::guard_failed(b, a) == DynamicError::action_failed(b, a)) as u8);
+                println!("eq_ge|{}|{}|{}|{}{}", a, b, c,
+                    (GuardError::new(a, b) == GuardError::new(a, c)) as u8,
+                    (GuardError::with_kind(a, "e", TransitionErrorKind::GuardFailed { guard: b }) == GuardError::with_kind(a, "e", TransitionErrorKind::GuardFailed { guard: c })) as u8);
                 let kinds = [
                     TransitionErrorKind::GuardFailed { guard: c },
                     TransitionErrorKind::ActionFailed { action: c },
